@@ -490,7 +490,8 @@ Proof. intros w b H. unfold wr. replace (_ >? _) with false by lia. reflexivity.
 (* ---- what with_fields accepts without keys ---- *)
 Definition body_ok (v5 : bool) (d : efdata) (m : option mac) (tail : bytes) : Prop :=
   authenticated d = [] /\ encrypted d = [] /\ Forall (field_ok v5) (untrusted d) /\
-  mac_wire m = tail /\ blen tail <= ef_cutoff v5 /\ wf_bytes tail.
+  mac_wire m = tail /\ blen tail <= ef_cutoff v5 /\ wf_bytes tail /\
+  (forall h' d', construct_packet h' tail d' = Ok (mkPacket h' d' m)).
 
 Lemma with_fields_accept : forall dec data h v5 p c, wf_bytes data -> 48 <= blen data ->
   with_fields dec NoKeys data h 48 v5 = Ok (Accept p c) ->
@@ -515,11 +516,14 @@ Proof.
   split; [exact Hc|].
   unfold construct_packet in E0. destruct a0 as [|x r].
   - inversion E0; subst p; clear E0. cbn [p_header p_ef p_mac]. split; [reflexivity|].
-    exists []. repeat split; try assumption; try (apply Hf; exact Hv).
-    + change (blen []) with 0. unfold ef_cutoff, EF_CUTOFF_V5, MAC_MAXIMUM_SIZE. destruct v5; lia.
+    exists []. split; [assumption|]. split; [assumption|]. split; [apply Hf; exact Hv|]. split; [reflexivity|].
+    split; [|split; [constructor|reflexivity]].
+    change (blen []) with 0. unfold ef_cutoff, EF_CUTOFF_V5, MAC_MAXIMUM_SIZE. destruct v5; lia.
   - inv_bind E0. inversion E0; subst p; clear E0. cbn [p_header p_ef p_mac]. split; [reflexivity|].
-    exists (x :: r). apply mac_deserialize_inv in E; [|assumption]. destruct E as (Hw & _).
-    repeat split; try assumption; try (apply Hf; exact Hv). lia.
+    exists (x :: r). pose proof E as E'. apply mac_deserialize_inv in E; [|assumption]. destruct E as (Hw & _).
+    split; [assumption|]. split; [assumption|]. split; [apply Hf; exact Hv|]. split; [exact Hw|].
+    split; [lia|]. split; [assumption|].
+    intros h' d'. unfold construct_packet. rewrite E'. reflexivity.
 Qed.
 
 Lemma wr_nil_room : forall w, blen (w_out w) <= w_cap w -> wr w [] = Ok w.
@@ -588,7 +592,7 @@ Proof.
   { inv_bind H. rename a into h.
     pose proof (hdr34_ok_len _ _ E) as Hlen.
     unfold HDR34_WIRE_LENGTH in H. apply with_fields_accept in H; try assumption.
-    destruct H as (-> & Hh & tail & Ha & He & Hf & Hm & _). split; [reflexivity|].
+    destruct H as (-> & Hh & tail & Ha & He & Hf & Hm & _ & _ & _). split; [reflexivity|].
     exists (btake 48 data ++ fields_wire false (untrusted (p_ef p)) ++ tail). intros enc cap Hcap.
     apply serialize_parts; rewrite ?Hh; try assumption.
     - intros w. eapply (proj1 (hdr34_serialize_eq data h d0 4 w Hwf E Hd0 ltac:(lia))).
@@ -599,7 +603,7 @@ Proof.
   assert (p' = p /\ c' = c) as [-> ->].
   { destruct (draft_id p'); [|discriminate]. destruct (bytes_eqb _ _); [|discriminate]. inversion H; split; reflexivity. }
   unfold HDR5_WIRE_LENGTH in E0. apply with_fields_accept in E0; try assumption.
-  destruct E0 as (-> & Hh & tail & Ha & He & Hf & Hm & _). split; [reflexivity|].
+  destruct E0 as (-> & Hh & tail & Ha & He & Hf & Hm & _ & _ & _). split; [reflexivity|].
   exists (hdr5_wire data h ++ fields_wire true (untrusted (p_ef p)) ++ tail). intros enc cap Hcap.
   apply serialize_parts; rewrite ?Hh; try assumption.
   - intros w. eapply (proj1 (hdr5_serialize_eq data h w Hwf E)).
